@@ -163,3 +163,156 @@ PROPS["C03"] = {
           "false claim, must FAIL", expect="fail", module=DM),
     ],
 }
+
+# =============================================================================== C15
+RM = "rtp"
+PROPS["C15"] = {
+    "level": "proof",
+    "explanation": "inverse laws of the RTCP/RTP field codecs against spec functions written from RFC 3550/4585/5104/8285; fixed-size codecs over their full field domain are unbounded (kind proof), variable-length ones are bounded stand-ins",
+    "trusted_base": ["header extension data handed over as Bytes::from_static (representation independence of Bytes assumed)"],
+    "kani": [
+        K("build_report_block contract (RFC 3550 6.4.1)", "c15_build_report_block_contract", "quick", "proof", ["build_report_block"],
+          "in-place kani::ensures: byte layout, 24-bit two's complement cumulative loss clamped to [-2^23, 2^23-1], for every ReportBlock", module=RM),
+        K("report block inverse + sign extension", "c15_report_block_inverse", "quick", "proof", ["build_report_block", "parse_report_block"],
+          "parse(build(b)) == b for representable loss, clamped otherwise; for EVERY 24 bytes parse sign-extends correctly and build(parse(raw)) == raw", module=RM),
+        K("REMB bitrate round trip (every u64)", "c15_remb_bitrate_roundtrip", "quick", "proof", ["build_remb_body", "parse_remb_body"],
+          "exponent <= 46 < 64, mantissa < 2^18, normalised; decoded == input with the low exp bits cleared; exact below 2^18 (exponent loop fully unwound, unwinding assertion on)", module=RM),
+        K("REMB ssrc list (2)", "c15_remb_ssrc_list_2", "quick", "bounded", ["build_remb_body", "parse_remb_body"],
+          "parse(build(r)) == r", bound="2 SSRC entries", module=RM),
+        K("SR body round trip (0 blocks)", "c15_sender_report_roundtrip_0", "quick", "proof", ["build_sender_report_body", "parse_sender_report"],
+          "layout + parse(build(sr)) == sr over the full field domain", module=RM),
+        K("SR body round trip (1 block)", "c15_sender_report_roundtrip_1", "quick", "bounded", ["build_sender_report_body", "parse_sender_report", "build_report_block", "parse_report_block"],
+          "parse(build(sr)) == sr", bound="1 report block", module=RM),
+        K("RR body round trip (1 block)", "c15_receiver_report_roundtrip_1", "quick", "bounded", ["build_receiver_report_body", "parse_receiver_report"],
+          "parse(build(rr)) == rr", bound="1 report block", module=RM),
+        K("PLI round trip", "c15_pli_roundtrip", "quick", "proof", ["build_psfb_common", "parse_psfb_common"], "layout + inverse for every ssrc pair", module=RM),
+        K("FIR round trip (2 entries)", "c15_fir_roundtrip_2", "quick", "bounded", ["build_fir_body", "parse_fir_body"],
+          "layout (reserved bytes zero) + inverse", bound="2 FIR entries", module=RM),
+        K("TWCC round trip (4-byte payload)", "c15_twcc_roundtrip_4", "quick", "bounded", ["build_twcc_body", "parse_twcc_body"],
+          "24-bit reference time big-endian; inverse", bound="4 payload bytes", module=RM),
+        K("NACK set preserved (2 seqs)", "c15_nack_set_preserved_2", "quick", "bounded", ["pack_nack_pairs"],
+          "the set of lost sequence numbers decoded per RFC 4585 6.2.1 equals the input set, incl. across 65535->0; BLP names only pid+1..pid+16",
+          bound="2 arbitrary u16 sequence numbers (std sort_unstable/dedup executed)", module=RM),
+        K("NACK set preserved (3 seqs)", "c15_nack_set_preserved_3", "thorough", "bounded", ["pack_nack_pairs"],
+          "same", bound="3 arbitrary u16 sequence numbers", module=RM, timeout=1200),
+        K("NACK body round trip (one pair)", "c15_nack_body_roundtrip_pair", "quick", "bounded", ["build_nack_body", "parse_nack_body", "pack_nack_pairs"],
+          "parse(build(n)) lists pid and pid+d", bound="2 sequence numbers within 16 of each other", module=RM),
+        K("write_rtcp_packet framing (5 B)", "c15_write_rtcp_packet_5", "quick", "bounded", ["write_rtcp_packet"],
+          "V=2, 5-bit count, body zero-padded to 32 bits, length == words-1", bound="body 5 bytes", module=RM),
+        K("write_rtcp_packet framing (8 B)", "c15_write_rtcp_packet_8", "quick", "bounded", ["write_rtcp_packet"], "same", bound="body 8 bytes", module=RM),
+        K("write_rtcp_packet framing (0 B)", "c15_write_rtcp_packet_0", "quick", "bounded", ["write_rtcp_packet"], "same", bound="body 0 bytes", module=RM),
+        K("is_rtcp range", "c15_is_rtcp_range", "quick", "proof", ["is_rtcp"], "true iff len >= 2 and 192 <= pt <= 208", module=RM),
+        K("RTP header layout (2 CSRC)", "c15_header_write_to_layout_csrc2", "quick", "bounded", ["RtpHeader::write_to", "RtpHeader::encoded_len", "RtpHeader::validate"],
+          "RFC 3550 5.1 layout for every field value; encoded_len == bytes written", bound="2 CSRCs, no extension", module=RM),
+        K("RTP header layout (8-byte extension)", "c15_header_write_to_layout_ext8", "quick", "bounded", ["RtpHeader::write_to", "RtpHeader::encoded_len"],
+          "X bit, profile, length in words, data", bound="extension data 8 bytes", module=RM),
+        K("RtpHeader::validate exact", "c15_header_validate_exact", "quick", "bounded", ["RtpHeader::validate"],
+          "rejects exactly > 15 CSRCs and unaligned extension data", bound="<= 17 CSRCs, extension <= 7 bytes", module=RM),
+        K("get_extension one-byte form (8 B)", "c15_get_extension_onebyte_8", "quick", "bounded", ["RtpHeader::get_extension"],
+          "equals a reference walk written from RFC 8285 4.2: exactly the element's bytes, never past the block",
+          bound="extension block of 8 symbolic bytes", module=RM, timeout=600),
+        K("get_extension one-byte form (12 B)", "c15_get_extension_onebyte_12", "thorough", "bounded", ["RtpHeader::get_extension"],
+          "same", bound="12 symbolic bytes", module=RM, timeout=1200),
+        K("get_extension two-byte form (8 B)", "c15_get_extension_twobyte_8", "quick", "bounded", ["RtpHeader::get_extension"],
+          "equals a reference walk written from RFC 8285 4.3", bound="8 symbolic bytes", module=RM, timeout=600),
+        K("set_extension then get_extension (4 B block)", "c15_set_get_extension_4", "thorough", "bounded", ["RtpHeader::set_extension", "RtpHeader::get_extension"],
+          "get(id) == Some(d), every other id unchanged, block 32-bit aligned",
+          bound="received block of 4 symbolic bytes (well-formed by assumption), 2-byte value", module=RM, timeout=1500),
+        K("SDES item length octet (3 B text)", "c15_sdes_item_length_3", "quick", "bounded", ["build_sdes_body"],
+          "length octet == number of text bytes written; chunk zero-terminated and padded to 32 bits", bound="one chunk, one item, text 3 bytes", module=RM, timeout=600),
+        K("SDES item length octet (255 B text)", "c15_sdes_item_length_255", "quick", "bounded", ["build_sdes_body"], "same", bound="text 255 bytes", module=RM, timeout=600),
+        K("SDES item length octet (300 B text)", "c15_sdes_item_length_300", "quick", "bounded", ["build_sdes_body"],
+          "text longer than 255 bytes is truncated to what the length octet can carry (never emits bytes its own parser mis-frames)", bound="text 300 bytes", module=RM, timeout=600),
+        K("BYE reason length octet (300 B text)", "c15_bye_reason_length_300", "quick", "bounded", ["build_goodbye_body"], "same law for the BYE reason", bound="reason 300 bytes", module=RM, timeout=600),
+        K("canary: report block inverse without clamping", "canary_report_block_unclamped", "quick", "canary", ["build_report_block"], "false claim, must FAIL", expect="fail", module=RM),
+    ],
+}
+
+# =============================================================================== C16
+SM, IM = "transports::ice::stun", "transports::ice"
+PROPS["C16"] = {
+    "level": "proof",
+    "explanation": "XOR-address codec inverse and layout (v4/v6, every address/port/transaction id), candidate-priority formula/range/ordering, pair-priority formula, overflow freedom and symmetry: unbounded. encode_stun_message MI/FINGERPRINT coverage and attribute framing: bounded stand-ins.",
+    "trusted_base": ["recording stubs for hmac_sha1 / crc32 inside the encode obligations (what is fed to them and where the result lands is checked; SHA-1/CRC values are not)"],
+    "kani": [
+        K("XOR address v4 layout + inverse", "c16_xor_address_v4_layout_and_inverse", "quick", "proof", ["append_xor_address", "parse_xor_address"],
+          "RFC 5389 15.2 layout and parse(append(a)) == a for every IPv4 address, port, transaction id, attribute type", module=SM),
+        K("XOR address v6 layout + inverse", "c16_xor_address_v6_layout_and_inverse", "quick", "proof", ["append_xor_address", "parse_xor_address"],
+          "v6 XOR key = cookie || transaction id; inverse for every IPv6 address", module=SM),
+        K("pad_four_bytes all residues", "c16_pad_four_bytes_all_residues", "quick", "proof", ["pad_four_bytes"], "pads with zeros to the next multiple of 4 for every residue", module=SM),
+        K("append_raw_attribute (0 B)", "c16_raw_attribute_len_0", "quick", "bounded", ["append_raw_attribute", "pad_four_bytes"],
+          "type | UNpadded length | value | zero padding", bound="value 0 bytes", module=SM),
+        K("append_raw_attribute (5 B)", "c16_raw_attribute_len_5", "quick", "bounded", ["append_raw_attribute", "pad_four_bytes"], "same", bound="value 5 bytes", module=SM),
+        K("append_raw_attribute (7 B)", "c16_raw_attribute_len_7", "quick", "bounded", ["append_raw_attribute", "pad_four_bytes"], "same", bound="value 7 bytes", module=SM),
+        K("encode: MI + FINGERPRINT coverage (no attributes)", "c16_encode_empty_mi_fp", "quick", "bounded",
+          ["encode_stun_message", "append_raw_attribute", "update_length_field", "write_length_field"],
+          "type bits for every method x class, cookie, txid; MI over exactly the preceding bytes with length counting MI; FP = crc(prefix, length counting FP) ^ 0x5354554e, last; final length == len-20",
+          bound="empty attribute list; hmac_sha1/crc32 recording stubs", module=SM, timeout=600),
+        K("encode: MI + FINGERPRINT coverage (2 attributes)", "c16_encode_two_attrs_mi_fp", "thorough", "bounded",
+          ["encode_stun_message", "append_attribute"], "same, PRIORITY + ICE-CONTROLLING in front", bound="2 fixed-size attributes", module=SM, timeout=1500),
+        K("encode: plain length field", "c16_encode_plain_length", "quick", "bounded", ["encode_stun_message", "append_attribute"],
+          "no MI/FP: length == len-20, LIFETIME layout", bound="1 LIFETIME attribute", module=SM, timeout=600),
+        K("decode(encode) XOR-MAPPED v4", "c16_decode_of_encode_xor_mapped_v4", "thorough", "bounded", ["decode_stun_message", "encode_stun_message", "parse_xor_address"],
+          "class, method, transaction id and address recovered", bound="binding success response, one v4 address", module=SM, timeout=1500),
+        K("priority_for contract (RFC 8445 5.1.2.1)", "c16_priority_for_contract", "quick", "proof", ["IceCandidate::priority_for"],
+          "in-place kani::ensures: 2^24*type_pref + 2^8*65535 + (256-component), <= 0x7EFFFFFF, for every type and component", module=IM),
+        K("priority ordering", "c16_priority_ordering", "quick", "proof", ["IceCandidate::priority_for"], "host > prflx > srflx > relay > 0; lower component id wins", module=IM),
+        K("priority_for_tcp (RFC 6544 4.1)", "c16_priority_for_tcp_spec", "quick", "proof", ["IceCandidate::priority_for_tcp"],
+          "same formula with local preference passive > active > so; never above the UDP priority", module=IM),
+        K("pair priority formula, no overflow, symmetry", "c16_pair_priority_formula_and_symmetry", "quick", "proof", ["IceCandidatePair::priority"],
+          "== 2^32*min + 2*max + (G>D) in u128 without u64 overflow for ANY remote priority given local <= 0x7EFFFFFF; pair(a,b).priority(Controlling) == pair(b,a).priority(Controlled)", module=IM),
+        K("pair ordering agreement", "c16_pair_priority_order_agreement", "quick", "proof", ["IceCandidatePair::priority"],
+          "both agents order any two pairs identically", module=IM),
+        K("canary: pair priority role independent", "canary_pair_priority_role_independent", "quick", "canary", ["IceCandidatePair::priority"], "false claim, must FAIL", expect="fail", module=IM),
+    ],
+}
+
+# =============================================================================== C07
+HM2, RCM = "transports::dtls::handshake", "transports::dtls::record"
+
+
+def _c07(names, module, fn, what):
+    out = []
+    for h in names:
+        n = h.rsplit("_", 1)[1]
+        out.append(K("%s total on %s bytes" % (what, n), h, "quick", "bounded", [fn],
+                     "every byte string of this length yields a value or an error: no panic, overflow, out-of-bounds, unwrap on None; loops within the unwinding bound",
+                     bound="input length exactly %s bytes, symbolic content" % n, module=module))
+    return out
+
+
+PROPS["C07"] = {
+    "level": "other",
+    "explanation": "BOUNDED stand-ins only (never counted as proved): Kani instruments every index, slice, arithmetic overflow, unwrap and unwinding bound; each obligation feeds every byte string of ONE concrete length through a decoder of the real crate. Lengths covered are listed per obligation. Not decided: walkers inside async handlers (SCTP, DTLS reassembly, TURN/TCP framing), SDP/candidate parsers, allocation proportionality, promptness.",
+    "trusted_base": ["inputs handed over as Bytes::from_static (representation independence of Bytes assumed)"],
+    "kani": (
+        _c07(["c07_client_hello_0", "c07_client_hello_33", "c07_client_hello_34", "c07_client_hello_35", "c07_client_hello_36", "c07_client_hello_39", "c07_client_hello_42"], HM2, "ClientHello::decode", "ClientHello::decode")
+        + _c07(["c07_server_hello_0", "c07_server_hello_34", "c07_server_hello_35", "c07_server_hello_38", "c07_server_hello_42"], HM2, "ServerHello::decode", "ServerHello::decode")
+        + _c07(["c07_hvr_0", "c07_hvr_2", "c07_hvr_3", "c07_hvr_8"], HM2, "HelloVerifyRequest::decode", "HelloVerifyRequest::decode")
+        + _c07(["c07_ske_0", "c07_ske_3", "c07_ske_4", "c07_ske_8", "c07_ske_12"], HM2, "ServerKeyExchange::decode", "ServerKeyExchange::decode")
+        + _c07(["c07_cert_0", "c07_cert_2", "c07_cert_3", "c07_cert_10"], HM2, "CertificateMessage::decode", "CertificateMessage::decode")
+        + _c07(["c07_cke_0", "c07_cke_1", "c07_cke_6"], HM2, "ClientKeyExchange::decode", "ClientKeyExchange::decode")
+        + _c07(["c07_finished_12"], HM2, "Finished::decode", "Finished::decode")
+        + _c07(["c07_hs_msg_0", "c07_hs_msg_11", "c07_hs_msg_12", "c07_hs_msg_16"], HM2, "HandshakeMessage::decode", "HandshakeMessage::decode")
+        + _c07(["c07_record_0", "c07_record_12", "c07_record_13", "c07_record_14", "c07_record_20"], RCM, "DtlsRecord::decode", "DtlsRecord::decode")
+        + _c07(["c07_parse_sr_0", "c07_parse_sr_24", "c07_parse_sr_52"], RM, "parse_sender_report", "parse_sender_report")
+        + _c07(["c07_parse_rr_3", "c07_parse_rr_28"], RM, "parse_receiver_report", "parse_receiver_report")
+        + _c07(["c07_parse_rtpfb_16"], RM, "parse_rtcp_rtpfb", "parse_rtcp_rtpfb")
+        + _c07(["c07_parse_psfb_16", "c07_parse_psfb_24"], RM, "parse_rtcp_psfb", "parse_rtcp_psfb")
+        + _c07(["c07_parse_nack_7", "c07_parse_nack_16"], RM, "parse_nack_body", "parse_nack_body")
+        + _c07(["c07_parse_remb_15", "c07_parse_remb_24"], RM, "parse_remb_body", "parse_remb_body")
+        + _c07(["c07_parse_twcc_15", "c07_parse_twcc_20"], RM, "parse_twcc_body", "parse_twcc_body")
+        + _c07(["c07_parse_fir_7", "c07_parse_fir_24"], RM, "parse_fir_body", "parse_fir_body")
+        + _c07(["c07_stun_decode_0", "c07_stun_decode_19", "c07_stun_decode_20", "c07_stun_decode_24"], SM, "decode_stun_message", "decode_stun_message")
+        + [
+            K("parse_xor_address total (<= 20 B)", "c07_parse_xor_address_total", "quick", "bounded", ["parse_xor_address"],
+              "Ok for every value; None exactly for short values / unknown family", bound="value length 0..20 (symbolic), any family", module=SM),
+            K("set_extension total on a received 4-byte block", "c07_set_extension_total_4", "thorough", "bounded", ["RtpHeader::set_extension"],
+              "stamping an extension on a parsed packet never panics, for every received one-byte-header block (well-formed or not)",
+              bound="received extension block of 4 symbolic bytes, 2-byte value", module=RM, timeout=1500),
+            K("canary: ClientHello::decode never succeeds on 42 bytes", "canary_client_hello_42_always_err", "quick", "canary", ["ClientHello::decode"],
+              "false claim, must FAIL", expect="fail", module=HM2),
+        ]
+        + [dict(o, tier="thorough", timeout=1500) for o in _c07(["c07_stun_decode_28", "c07_stun_decode_32"], SM, "decode_stun_message", "decode_stun_message")]
+    ),
+}
